@@ -24,20 +24,35 @@ invariants and prints one JSON record per case.  This module replays every recor
         S' = I + (S - I)/100 or /10^4 (strains 1e-3 / 1e-5) from python fractions (m = 0: exact Mercator series),
         judged at 1e-9 of the strain + 3e-14 through the grain routes, DeformationGradientTensor and the kernels
 
+  DECORATION (no expected value depends on it): three of four grains of this replay carry a ref_unitcell - what
+        indexing.do_index(unitcell=..) and the dataset loaders attach to every grain - equal to the reference of the
+        requests or a nominal cell 0.05-0.4 % away from it, attached at construction or after the first request;
+        two of three reference grains carry one too; names, filled caches; the small-strain grains carry the
+        nominal cell while the request gives the refined one; TensorMaps whose phases dictionary holds nominal
+        cells while the reference is handed over as an explicit dzero_unitcell map (at construction / by add_map)
+
 Machine HSpec (configs Strain_hist_q/_hist_t [tlc -simulate, VERIF_SEED], Strain_map_t [exhaustive],
 Strain_map_asis [expected violation]) - HISTORIES on one object; law: every answer is the exact tensor of the CURRENT
-state.  Each printed history is replayed on one real grain (+ one reference grain object, + one
-DeformationGradientTensor object) or one real TensorMap (see c10_hist.py): strain requests interleaved with
-set_ubi, new / re-oriented reference grains, other m and frames; TensorMap reads of eps_sample / eps_crystal /
-eps_hydro / eps_devia interleaved with a new UBI map assigned by setter / item / add_map, on multi-phase maps with
-arbitrary phase-id dictionaries.  Grain histories are replayed a second time lifted onto the records of machine Spec
-(triclinic references, Pythagorean orientations).
+state SEEN FROM THE REFERENCE GIVEN IN THE REQUEST - nothing else the objects carry, nothing asked before.  Each
+printed history is replayed on one real grain (+ one reference grain object, + one DeformationGradientTensor object)
+or one real TensorMap (see c10_hist.py): strain requests interleaved with set_ubi, new / re-oriented reference
+grains, other m and frames, reference cells of another scale k.L0 (the same grain then has the stretch S/k; k = 11/10,
+9/10, lifted: 501/500, 499/500), reference grains of another cell, ref_unitcell objects attached to the grain / the
+reference grain (equal to or different from the reference given, before or after the first request, at
+construction), cached properties read and bookkeeping attributes set in between; DeformationGradientTensor built
+from such grains; TensorMap reads of eps_sample / eps_crystal / eps_hydro / eps_devia interleaved with a new UBI map
+assigned by setter / item / add_map, an explicit dzero_unitcell map handed over (construction / item / add_map, while
+no strain map is cached) next to nominal cells in the phases dictionary, reads of the other computed maps, on
+multi-phase maps with arbitrary phase-id dictionaries.  Grain histories are replayed a second time lifted onto the
+records of machine Spec (triclinic references, Pythagorean orientations, near-by cell scales).
 
-Findings: TensorMap.clear_cache keeps the eps maps, so after a new UBI map is assigned they still show the old one
-(STALE_FINDING_ID): the model of the code as it is (Strain_map_asis.cfg) violates MapAsIsCurrent, the counterexample
-and every drawn history are replayed; a failing read is in the class iff it equals, voxel for voxel, the value the
-as-is model predicts and that differs from the property's.  With the entry in known_findings.json the class is
-reported as KNOWN-FINDING, without it as VIOLATION.
+Findings: TensorMap.clear_cache kept the eps maps (repaired in /repo by e29c99a), so after a new UBI map was assigned
+they still showed the old one (STALE_FINDING_ID): the model of the code as it was (Strain_map_asis.cfg) violates
+MapAsIsCurrent, the counterexample and every drawn history are replayed; a failing read is in the class iff it equals,
+voxel for voxel, the value that model predicts and that differs from the property's.  With a `finding` entry in
+known_findings.json the class is reported as KNOWN-FINDING, otherwise as VIOLATION.
+Not modelled: an explicit dzero_unitcell map handed over while strain maps are cached (add_map clears caches for
+"UBI" only; the property does not say what the cached maps should show).
 
 m = 0 (logarithmic strain) and the B matrix of the strained cell (needed for the map's U) are irrational:
 they are finished here from the exact S, R, UB that the specification emits.
@@ -137,10 +152,31 @@ class Replayer(object):
         self.fam = {"small_strain_cases": 0, "small_strain_comparisons": 0, "first_order_pairs_judged": 0,
                     "first_order_pairs_bound_below_strain": 0, "one_dgt_object_all_m": 0, "dgt_mixed_arguments": 0,
                     "broadcast_single_cell_stacks": 0, "bare_3x3_calls": 0, "dirty_output_buffer_calls": 0,
-                    "multi_layer_map_voxels": 0, "orphan_voxels_in_TensorMap": 0, "exact_zero_comparisons": 0}
+                    "multi_layer_map_voxels": 0, "orphan_voxels_in_TensorMap": 0, "exact_zero_comparisons": 0,
+                    # the decorate dimension (what an object carries is no argument of a strain request)
+                    "grains_carrying_the_reference_cell": 0, "grains_carrying_another_cell_from_construction": 0,
+                    "grains_carrying_another_cell_attached_after_first_request": 0,
+                    "reference_grains_carrying_another_cell": 0, "reference_grains_carrying_their_own_cell": 0,
+                    "small_strain_grains_carrying_the_nominal_cell": 0,
+                    "TensorMap_explicit_dzero_map_voxels": 0}
+        self.ncarried = 0
+        self.index0 = 0               # --replay: position the saved record had in its run (selects its decoration)
 
     def mods(self):
         return {"grain": self.grain, "fs": self.fs, "unitcell": self.unitcell, "tm": self.tm}
+
+    NEAR = (1.002, 0.9985, 1.0005, 0.996)     # a nominal phase cell next to the refined strain-free cell
+
+    def near_cell(self, cell, i):
+        k = self.NEAR[i % len(self.NEAR)]
+        return [cell[0] * k, cell[1] * k, cell[2] * k, cell[3], cell[4], cell[5]]
+
+    def carried(self, cell):
+        """the unitcell object an indexer / a dataset loader attaches to the grains it hands out (grain.ref_unitcell):
+        the phase's cell with a lattice symmetry or a space group number and a name"""
+        self.ncarried += 1
+        i = self.ncarried
+        return self.unitcell.unitcell(list(cell), symmetry=["P", 1, "F", 225, "I", 194][i % 6], name="phase%d" % (i % 4))
 
     def cmp(self, route, idx, got, exp, m=None, floor=None):
         self.ncmp += 1
@@ -192,6 +228,32 @@ class Replayer(object):
         Qp = fmm(o.U0, ft(U0P))
         cell = list(o.cell)
         pert = self.perturb
+        # DECORATION (no expectation below depends on it): the objects carry a ref_unitcell - as the grains of
+        # indexing.do_index(unitcell=..) and of the dataset loaders do - equal to the reference of the requests or a
+        # nominal cell 0.05-0.4 % away from it, attached at construction or after the first request; names, filled
+        # caches
+        di = idx + self.index0
+        dk = di % 4                      # grain: bare | the reference cell | another cell | another cell, attached later
+        rkd = (di // 4) % 3              # reference grains: bare | another cell | their own cell
+        near = self.near_cell(cell, di // 12)
+        if dk == 1:
+            g.ref_unitcell = self.carried(cell)
+            self.fam["grains_carrying_the_reference_cell"] += 1
+        elif dk == 2:
+            g.ref_unitcell = self.carried(near)
+            g.name = "phase1:%d" % di
+            self.fam["grains_carrying_another_cell_from_construction"] += 1
+        if rkd == 1:
+            g0.ref_unitcell = self.carried(near)
+            g0p.ref_unitcell = self.carried(self.near_cell(cell, di // 12 + 1))
+            g0.U, g0p.B, g0.unitcell
+            self.fam["reference_grains_carrying_another_cell"] += 1
+        elif rkd == 2:
+            g0.ref_unitcell = self.carried(cell)
+            g0p.ref_unitcell = g0.ref_unitcell
+            self.fam["reference_grains_carrying_their_own_cell"] += 1
+        if di % 5 == 0:
+            g.U, g.B, g.unitcell, g.rmt              # caches of the grain filled before the first request
         # ONE DeformationGradientTensor object for the whole m loop (its _svd / _vrs caches are shared by every
         # m and both frames), F / U / VRS read before and after
         D = self.fs.DeformationGradientTensor(o.ubi_f, o.ub0_f)
@@ -237,6 +299,9 @@ class Replayer(object):
             # C: DeformationGradientTensor directly (the shared object, ref and lab interleaved)
             self.cmp("DeformationGradientTensor.finite_strain_ref", idx, D.finite_strain_ref(m), exp_ref, m)
             self.cmp("DeformationGradientTensor.finite_strain_lab", idx, D.finite_strain_lab(m), exp_lab, m)
+            if dk == 3 and m == ALLM[0]:
+                g.ref_unitcell = self.carried(near)          # attached after the first requests were answered
+                self.fam["grains_carrying_another_cell_attached_after_first_request"] += 1
         # the same object again, the other way round (every cache is filled now)
         for m in reversed(ALLM):
             self.cmp("DeformationGradientTensor.finite_strain_lab [asked again]", idx, D.finite_strain_lab(m), o.lab(m), m)
@@ -283,7 +348,15 @@ class Replayer(object):
         g0 = G(s.ubi0_f)
         cell = list(s.cell)
         n0 = self.ncmp
-        D = self.fs.DeformationGradientTensor(s.ubi_f, s.ub0_f)
+        di = idx + self.index0
+        if di % 2 == 0:
+            # the usual situation: the grain knows the NOMINAL cell of its phase, the request gives the refined
+            # strain-free cell (0.05-0.4 % away: more than the strains asked for here)
+            g.ref_unitcell = self.carried(self.near_cell(cell, di // 2))
+            self.fam["small_strain_grains_carrying_the_nominal_cell"] += 1
+        if di % 3 == 0:
+            g0.ref_unitcell = self.carried(self.near_cell(cell, di // 3 + 1))
+        D = self.fs.DeformationGradientTensor(g if di % 4 == 0 else s.ubi_f, g0 if di % 4 == 2 else s.ub0_f)
         tr, tl, tg = {}, {}, {}
         for m in ALLM:
             exp_lab = s.lab(m)
@@ -445,7 +518,37 @@ class Replayer(object):
             return tm.TensorMap(maps={"UBI": UBI.reshape(2, ny, nx, 3, 3).copy(),
                                       "phase_ids": pid.reshape(2, ny, nx).copy()},
                                 phases=dict(phases))
+        # the reference handed over EXPLICITLY as a dzero_unitcell map (the refined cells), while the phases dictionary
+        # holds nominal cells next to them: the strains are relative to the map that was given
+        nominal = {}
+        for i in reversed(range(len(cellkeys))):
+            nominal[ids[i]] = self.carried(self.near_cell(list(cellkeys[i]), i))
+        dzm = np.full((tot, 6), np.nan)
+        for i, s in zip(order, where):
+            dzm[s] = oracles[i].cell
+        self.fam["TensorMap_explicit_dzero_map_voxels"] += len(where)
+
+        def newmap_nominal(explicit):
+            maps = {"UBI": UBI.reshape(2, ny, nx, 3, 3).copy(), "phase_ids": pid.reshape(2, ny, nx).copy()}
+            if explicit:
+                maps["dzero_unitcell"] = dzm.reshape(2, ny, nx, 6).copy()
+            return tm.TensorMap(maps=maps, phases=dict(nominal))
         sink = io.StringIO()
+        with contextlib.redirect_stdout(sink):
+            t3 = newmap_nominal(True)
+            es3 = np.array(t3.eps_sample).reshape(tot, 3, 3)
+            t4 = newmap_nominal(False)
+            t4.U, t4.unitcell
+            t4.add_map("dzero_unitcell", dzm.reshape(2, ny, nx, 6).copy())
+            ec4 = np.array(t4.eps_crystal).reshape(tot, 3, 3)
+        for i, s in zip(order, where):
+            o = oracles[i]
+            self.cmp("TensorMap.eps_sample [explicit dzero_unitcell map, nominal cells in phases]", i, es3[s], o.lab(0.5), 0.5)
+            self.cmp("TensorMap.eps_crystal [dzero_unitcell map added before the first request, nominal cells in phases]",
+                     i, ec4[s], o.ref(0.5, o.U0), 0.5)
+        for s in sorted(masked) + list(orphans):
+            self.cmp("TensorMap.eps_sample NaN mask [explicit dzero_unitcell map]", 0, es3[s], nan33)
+            self.cmp("TensorMap.eps_crystal NaN mask [explicit dzero_unitcell map]", 0, ec4[s], nan33)
         with contextlib.redirect_stdout(sink):
             t1 = newmap()
             es1 = np.array(t1.eps_sample).reshape(tot, 3, 3)           # from UBI
@@ -509,7 +612,7 @@ class Replayer(object):
                 if nsm % small_every:
                     continue
                 # one small-strain member per case: strains of 1e-3 (even cases) or 1e-5 (odd cases)
-                s = shrink(o, SHRINKS[i % 2])
+                s = shrink(o, SHRINKS[(i + self.index0) % 2])
                 self.guarded("per-grain routes (small strain)", i, self.per_case_small, i, s)
                 smalls.append((i, s))
         self.nmasked = 0
@@ -584,9 +687,10 @@ def run_hist_spec(cfgname, behaviours=None, depth=None, timeout=1500, workers=No
 ACTIONS = ("PickRef", "PickStretch", "PickRot", "Deform", "Ref", "Lab")
 INVARIANTS = ("RefLatticeOK", "PolarOK", "RefIsSethHill", "RefSym", "LabIsRotatedRef", "Objectivity",
               "LabObjectivity", "ZeroIff", "FirstOrder")
-HINVARIANTS = ("HAnswersCurrent", "HPolarOK", "MapExpCurrent", "MapRepairedCurrent", "DzeroByKey")
-HOPS = {"grain": ("new", "set_ubi", "newref", "reorient", "ask", "dgt", "dask", "dread"),
-        "map": ("newmap", "read", "assign")}
+HINVARIANTS = ("HAnswersCurrent", "HPolarOK", "HDecorTracked", "MapExpCurrent", "MapRepairedCurrent", "DzeroByKey",
+               "DzSourceOK")
+HOPS = {"grain": ("new", "set_ubi", "newref", "reorient", "decorate", "touch", "ask", "dgt", "dask", "dread"),
+        "map": ("newmap", "read", "assign", "setdz", "touch")}
 
 
 def judge(chk, recs, rp, oracles):
@@ -617,7 +721,7 @@ def judge(chk, recs, rp, oracles):
                 seen.add(idx)
                 chk.violation("%s differs from the specification's value (m=%s; %d failing comparisons on this "
                               "route)" % (route, detail.get("m"), len(fails)),
-                              {"record": recs[idx], "route": route, "detail": detail})
+                              {"record": recs[idx], "index": idx + rp.index0, "route": route, "detail": detail})
     return byroute
 
 
@@ -757,10 +861,21 @@ def history_vacuity(chk, hrecs, hr, tier):
     need_g = ("asks", "asks_m0", "ask_again_after_set_ubi_same_reference", "ask_after_reference_reoriented_in_place",
               "ask_after_new_reference_object", "dgt_objects", "dgt_mixed_argument_kinds",
               "dgt_objects_asked_for_2_or_more_m", "dgt_asked_after_set_ubi_of_its_grain", "dgt_reads",
-              "lifted_histories")
+              "lifted_histories",
+              "decorations", "touches", "grains_decorated_at_construction",
+              "ask_cell_while_grain_carries_another_cell",
+              "ask_cell_while_grain_carries_another_cell_attached_before_first_request",
+              "ask_cell_while_grain_carries_another_cell_attached_after_a_request",
+              "ask_cell_while_grain_carries_the_same_cell", "ask_cell_while_reference_grain_object_carries_a_cell",
+              "ask_grain_while_grain_carries_a_cell", "ask_grain_while_reference_grain_carries_another_cell",
+              "dgt_from_grain_objects_carrying_another_cell", "ask_reference_grain_of_another_cell_scale",
+              "ask_cell_of_another_scale_than_the_previous_request", "ask_near_cell_half_percent")
     need_m = ("reads", "reads_after_assignment_of_a_cached_map", "reads_derived_by_rotation", "assign_setter",
               "assign_item", "assign_add_map", "dict_not_0_to_n_in_order", "dict_multi_phase", "nz_above_1",
-              "orphan_voxels", "masked_voxels", "voxels_nan_in_one_version")
+              "orphan_voxels", "masked_voxels", "voxels_nan_in_one_version",
+              "touches", "explicit_dzero_map_at_construction", "explicit_dzero_map_set_by_item",
+              "explicit_dzero_map_set_by_add_map", "explicit_dzero_map_set_after_a_read",
+              "reads_relative_to_explicit_map_with_other_cells_in_phases", "reads_relative_to_nominal_phase_cells")
     for k_ in need_g:
         if not hr.gr.stats[k_]:
             raise common.MachineryError("vacuity: grain histories never exercised %s" % k_)
@@ -796,6 +911,7 @@ def run(tier, replay=None):
             chk.rule = "replay of one saved history on one real object"
         else:
             rec = case["record"]
+            rp.index0 = int(case.get("index", 0))
             oracles = rp.run([rec])
             chk.case(json.dumps(rec, sort_keys=True))
             chk.traces += 1
@@ -1003,7 +1119,17 @@ def selftest(recs=None, hrecs=None):
           any(o["op"] == "read" and o["cur"] > 1 and o["asis"] == o["exp"] for o in r["hist"])][:5]
     if not gh or not mh:
         raise common.MachineryError("selftest: no history with a question after a change of state")
-    for pert, recs_, attr in (("hist_state", gh, "gr"), ("map_version", mh, "mr")):
+    # the decorate dimension: an answer judged against the cell the grain CARRIES / against the other source of the
+    # map's reference cells must be rejected
+    gh2 = [r for r in hrecs if r["kind"] == "grain" and not r.get("lifted") and
+           any(o["op"] == "ask" and o["rk"] == "cell" and o["m2"] != 0 and o.get("gd") and o["gd"] != o["k"]
+               for o in r["hist"])][:5]
+    mh2 = [r for r in hrecs if r["kind"] == "map" and (r["hist"][0].get("dzx") or any(o["op"] == "setdz" for o in r["hist"]))
+           and any(o["op"] == "read" for o in r["hist"])][:5]
+    if not gh2 or not mh2:
+        raise common.MachineryError("selftest: no history with a request made while another cell is carried")
+    for pert, recs_, attr in (("hist_state", gh, "gr"), ("map_version", mh, "mr"), ("hist_carried", gh2, "gr"),
+                              ("map_reference", mh2, "mr")):
         ref_ = HistoryRun(base.mods(), allrecs, 5)
         ref_.run(recs_, 3)
         hp = HistoryRun(base.mods(), allrecs, 5, perturb=pert)
